@@ -10,10 +10,12 @@ CONSTANTS
   CarryLayers = {"http", "json", "signed"}
   X509Chains = {"x509", "x509b"}
   KeyOptions = {"bothDifferent"}
+  ShapeChains = {}
+  ProbeClasses = {}
   ReplaySources = {"valid", "sigCorrupt", "sigOverOtherSize"}
 INIT Init
 NEXT Next
 VIEW StateView
-INVARIANTS TypeOK OnlyVerifiedSTH OnlyVerifiedSCT
+INVARIANTS TypeOK OnlyVerifiedSTH OnlyVerifiedSCT ConstructionLaw
 PROPERTIES OnlyFrom200 ErrorsCarryResponse NoPartialResults NoCreditForHistory
 CHECK_DEADLOCK FALSE
